@@ -105,6 +105,8 @@ structure Document where
   comments : List Comment
   commentsEx : List CommentEx
   hasExtended : Bool
+  commentsIds : List (Str × Str) := []      -- (paraId, durableId)
+  commentsCex : List (Str × Str) := []      -- (durableId, dateUtc)
 deriving Inhabited
 
 /-! ### python-docx semantics -/
